@@ -241,6 +241,21 @@ CHECKS = {
               "exactly; yr / h period priors would be off the lattice while that finding is open."),
         technique="TLA+ spec (Gauss) in physical units checked with TLC; replay of TLC-enumerated structural points under random unit assignments; total monitor",
     ),
+    "C11": dict(
+        category="model_checking",
+        text=("The sampler's model is Gauss.Curve (Keplerian column, constant, offset columns of MultiSurvey, trend columns relative to "
+              "t_ref) and the jitter-inflated Gaussian data term. For structural points TLC enumerates (poly_trend 1..3 x offsets 0..2 x "
+              "K-prior kinds x jitter x e) with lattice values and random unit assignments (period prior in d / 8 d / d/8, velocity "
+              "priors in km/s / m/s, slopes per day / year, angles rad / deg), setup_mcmc is run on the real prior; model_rv, the "
+              "observed node's log-density and the ln_likelihood deterministic are compiled as functions of the prior's own variables "
+              "and evaluated at the lattice point: the curve is compared exactly with the specification by TLC, both Gaussian terms "
+              "with the certified curve; mcmc_init must be the chosen sample (median-period member for 3 / 5 rows in shuffled order) "
+              "in the prior's units; the free variables must be the prior's own objects."),
+        design_ref="DESIGN.md section 3 C11",
+        note=("On the lattice only. NOT decided: the prior term of the model's total log-density (pymc transforms / Jacobians); it is "
+              "bound only structurally (the free variables are the prior's variables, whose densities are the declared ones)."),
+        technique="TLA+ spec (Gauss.Curve) exact rationals checked with TLC; replay of TLC-enumerated structural points through setup_mcmc; total monitor",
+    ),
 }
 
 NOT_YET = "check not built yet (build in progress; see DESIGN.md section 7)"
